@@ -10,6 +10,7 @@ import Sqfs.Proofs.HardLinkTree
 import Sqfs.Proofs.TextParse
 import Sqfs.Proofs.C07Lines
 import Sqfs.Proofs.C07ReadHeader
+import Sqfs.Model.C12TarStream
 namespace Sqfs.C07
 open Sqfs.HardLink
 
@@ -474,5 +475,57 @@ example : specFile 5 [32, 97, 98, 99, 100, 101, 13, 10, 10, 120] =
 example : noHard (⟨[.part 0, .eintr, .part 2], []⟩ : OS).sc = true := by decide
 
 end Lines
+
+/-! ## What the tar member stream hands out (`strm_get_buffered_data`, lib/tar/src/iterator.c) -/
+section MemberStream
+open Sqfs.IoLoops Sqfs.IoLoops.Spec
+
+/--
+**Whatever size a caller asks for, the tar member stream never hands out more than its buffer holds.**
+`tarGet I x want os` is `strm_get_buffered_data` of the member stream `tar2sqfs` reads the content of an archive
+member through (model: `Sqfs/Model/C12TarStream.lean`, tied to the code by C12's `tarstrm` scenarios and by C07's
+`ms` lines with request sizes up to 1 MiB).  For **every** archive stream `I`, every state of the iterator (any
+sparse map, any offset), **every** request size `want` — `tar2sqfs -b` makes `write_file` ask for a whole data
+block, up to 1 MiB — and every OS script: the window has at most `want` bytes; and when the position lies in a
+hole of a sparse member (`last_sparse`), the window is at most 4096 bytes (`sizeof(tar->buffer)`, the zero-filled
+array inside the stream object it is served from) and consists of zero bytes only.  Outside a hole the window is a
+prefix (`take diff`) of the window of the wrapped archive stream, so it lies inside that stream's buffer if the
+archive stream's own window does (file istream: C12 `istream` scenarios; `want` is clamped to `BUFSZ` there).
+-/
+theorem tar_member_window_bounded {σ : Type} (I : StreamI σ) (x : TarStrm σ) (want : Nat) (os : OS) :
+    (tarGet I x want os).2.1.length ≤ want ∧
+    ((tarGet I x want os).2.2.1.it.lastSparse = true →
+      (tarGet I x want os).2.1.length ≤ 4096 ∧
+      (tarGet I x want os).2.1 = List.replicate (tarGet I x want os).2.1.length 0) := by
+  unfold tarGet
+  dsimp only
+  split
+  · simp
+  split
+  · simp
+  split
+  · simp
+  split
+  · simp
+  split
+  · simp only [List.length_replicate]
+    refine ⟨?_, fun _ => ⟨?_, trivial⟩⟩ <;> (repeat' split) <;> omega
+  · split
+    · simp
+    · simp
+    · rename_i hh _ _ _ _ _
+      simp only [List.length_take]
+      refine ⟨?_, fun h => absurd h (by simpa using hh)⟩
+      split <;> omega
+
+/-! ### non-vacuity: a member of 2 MiB that is one hole, a request of 1 MiB (`tar2sqfs -b 1M`): 4096 zero bytes -/
+example : (tarGet (idealStream 4096 []) (tarOpen ((TarIt.init (⟨0, 0⟩ : Ideal)).setMember ⟨0, 2097152, [⟨2097152, 0⟩]⟩))
+    1048576 OS.full).2.1 = List.replicate 4096 0 := by rfl
+example : (tarGet (idealStream 4096 []) (tarOpen ((TarIt.init (⟨0, 0⟩ : Ideal)).setMember ⟨0, 2097152, [⟨2097152, 0⟩]⟩))
+    1048576 OS.full).2.2.1.it.lastSparse = true := by rfl
+example := tar_member_window_bounded (idealStream 4096 [])
+  (tarOpen ((TarIt.init (⟨0, 0⟩ : Ideal)).setMember ⟨0, 2097152, [⟨2097152, 0⟩]⟩)) 1048576 OS.full
+
+end MemberStream
 
 end Sqfs.C07
